@@ -1172,6 +1172,10 @@ type (
 		socketReadErrorOnce sync.Once
 
 		rd atomic.Value // read deadline for Accept()
+
+		// closed and replaced whenever the read deadline changes, to wake up blocked Accept calls
+		rdChanged   chan struct{}
+		rdChangedMu sync.Mutex
 	}
 )
 
@@ -1390,6 +1394,9 @@ func (l *Listener) Accept() (net.Conn, error) {
 
 // AcceptKCP accepts a KCP connection
 func (l *Listener) AcceptKCP() (*UDPSession, error) {
+	// taken before the deadline is looked at: a deadline set from now on wakes us up
+	deadlineChanged := l.deadlineChanged()
+
 	var timeout <-chan time.Time
 	if tdeadline, ok := l.rd.Load().(time.Time); ok && !tdeadline.IsZero() {
 		timer := time.NewTimer(time.Until(tdeadline))
@@ -1407,7 +1414,20 @@ func (l *Listener) AcceptKCP() (*UDPSession, error) {
 		return nil, l.socketReadError.Load().(error)
 	case <-l.die:
 		return nil, errors.WithStack(io.ErrClosedPipe)
+	case <-deadlineChanged:
+		// the deadline was set, moved or cleared while we were blocked: start over with the new one
+		return l.AcceptKCP()
 	}
+}
+
+// deadlineChanged returns a channel that is closed by the next change of the read deadline.
+func (l *Listener) deadlineChanged() <-chan struct{} {
+	l.rdChangedMu.Lock()
+	defer l.rdChangedMu.Unlock()
+	if l.rdChanged == nil {
+		l.rdChanged = make(chan struct{})
+	}
+	return l.rdChanged
 }
 
 // SetDeadline sets the deadline associated with the listener. A zero time value disables the deadline.
@@ -1420,6 +1440,13 @@ func (l *Listener) SetDeadline(t time.Time) error {
 // SetReadDeadline implements the Conn SetReadDeadline method.
 func (l *Listener) SetReadDeadline(t time.Time) error {
 	l.rd.Store(t)
+	// wake up every blocked Accept so that it picks up the new deadline
+	l.rdChangedMu.Lock()
+	if l.rdChanged != nil {
+		close(l.rdChanged)
+		l.rdChanged = nil
+	}
+	l.rdChangedMu.Unlock()
 	return nil
 }
 
